@@ -637,7 +637,9 @@ func (e *env) runCase(c *Case, id int) Event {
 	var wire []byte
 	switch c.Dir {
 	case "sdk-to-ref":
-		setClock(t0)
+		// not on a minute boundary: key rows are stamped with the minute (CreateDatePrecision), the data row key with the second,
+		// so a mapping that mixes the two stamps up names a row that does not exist
+		setClock(t0 + 7)
 		var ikMeta appencryption.KeyMeta
 		wire, ikMeta, err = e.sdkEncrypt(c, st, payload)
 		if err != nil {
